@@ -72,6 +72,17 @@ def run(ck):
                       (E.m_cmp("<", E.m_const(0), size), True, "an entry with no payload/no chain would become readable")]:
         ck.require_fact("F1.publish-gates", fl, publish, m, v, "ENTRY_VALIDATED|closeForWriting", min_sites=2, why="(%s)" % why)
 
+    ck.rule("F1b finalizeOrThrow publishes only an entry that is whole by its own metadata: ENTRY_VALIDATED/closeForWriting only with le.anchored() established true "
+            "(the inode slot, which carries the metadata, was loaded) and with the size recorded from the inode either unknown (swap_file_sz == 0, then it is set "
+            "to le.size) or equal to the loaded size le.size; a chain whose payloads add up to less than the recorded entry size, or a tail without its inode, "
+            "is not an intact entry")
+    ck.require_fact("F1b.publish-needs-inode", fl, publish, getter(LE + "anchored", "le"), True, "ENTRY_VALIDATED|closeForWriting", min_sites=2,
+                    why="(a chain tail whose inode slot is missing or zeroed would become a readable, metadata-less entry)")
+    known = E.M(lambda t: any(m.endswith("::swap_file_sz") for m in E.mentions(t)) and E.strip(t).get("k") != "bin", "swap_file_sz (non-zero)")
+    agree = E.M(lambda t: E.strip(t).get("k") == "bin" and E.strip(t).get("op") == "==" and any(m.endswith("::swap_file_sz") for m in E.mentions(t)) and (LE + "size") in E.mentions(t), "swap_file_sz == le.size")
+    ck.require_any("F1b.publish-needs-size-agreement", fin, publish, [(known, False), (agree, True)], "ENTRY_VALIDATED|closeForWriting", min_sites=2, track_history=True,
+                   why="(an entry whose loaded payload is shorter than the entry size recorded in its inode would become readable: hits would run past its last slice)")
+
     ck.rule("F2 finalizeOrThrow, each walked slot: slot.finalized(true) only with finalized() F (no loop, not taken by another entry), mapped() T, freed() F; "
             "mappedSize accumulation and the step to mapSlice.next only after marking that slot in the same iteration")
     mark = setter(LS + "finalized")
@@ -79,6 +90,20 @@ def run(ck):
                       ("mapped", True, "a slot that was never added to the map would be counted"),
                       ("freed", False, "a slot already given back as free space would be counted")]:
         ck.require_fact("F2.slot-gates", fl, mark, result_of(ck, fin, LS + g, "slot"), v, "slot.finalized(true)", why="(%s)" % why)
+    ck.rule("F2c finalizeOrThrow, slot ownership: a walked slot is counted for entry fileNo only if something established that the slot was loaded *for that entry* "
+            "(an equality relating the slot / slotId to fileNo); mapped()/!finalized()/!freed() alone also hold for a slot that another, not yet finalized entry "
+            "mapped, so an on-disk nextSlot pointing into such an entry steals its slot")
+    pfile = fin.params[0]["d"] if fin.params else "?"
+    for st in fl.find(mark):
+        owns = any(f[0] == "A" and f[2] is True and pfile in E.mentions(fl.trees[f[1]]) and ({"slot", "slotId"} & E.mentions(fl.trees[f[1]])) and E.strip(fl.trees[f[1]]).get("op") == "=="
+                   for f in st.facts)
+        if owns:
+            ck.ok("F2c.slot-belongs-to-entry", st.where(), "the walked slot is checked to belong to this entry")
+        else:
+            ck.violation("F2c.slot-belongs-to-entry", "F2c|finalizeOrThrow|slot-ownership-unchecked", st.where(),
+                         "finalizeOrThrow marks and counts a walked slot without any check that it was loaded for entry fileNo: a chain whose on-disk nextSlot points at "
+                         "a slot mapped by another still-loading entry (e.g. one of unknown size) takes that slot over; the robbed entry is later freed and pushes a slot "
+                         "that is part of a readable chain onto the free list")
     step = ev_any(ev_assign("mappedSize", ops=("+=",)), ev_assign("slotId", ops=("=",)))
     ck.require_passed("F2.walk-marks-each-slot", fl, step, "mark", "mappedSize+=|slotId=next", min_sites=2,
                       why="(a slot would be counted without the once-only finalized mark)")
@@ -181,6 +206,41 @@ def run(ck):
     ck.rule("A1 addSlotToEntry: after any freeBadEntry() no path reaches mapSlot()/finalizeOrFree(); le.anchored(true) only with le.anchored() F; "
             "RESPONSE(second inode -> freeBadEntry), RESPONSE(importEntry() F -> freeBadEntry), RESPONSE(totalSize != swap_file_sz -> freeBadEntry), RESPONSE(le.size > totalSize -> freeBadEntry)")
     ase = facts.fn(RB + "addSlotToEntry")
+    ck.rule("A3 addSlotToEntry compares the loaded size with a *current* total: every local that a branch condition compares with the loading entry's size, if it is a "
+            "snapshot of anchor.basics.swap_file_sz, is taken after the last point where this function can change swap_file_sz (importEntry(), the assignment from "
+            "header.entrySize) on every path to mapSlot()/finalizeOrFree(); a snapshot hoisted above the inode block is 0 while the inode slot itself is processed, "
+            "so the overflow check is skipped for exactly that slot")
+    is_sz = lambda t: t is not None and any(m.endswith("::swap_file_sz") for m in E.mentions(t))
+    cmp_locals = set()
+    for b in ase.blocks.values():
+        t = b.get("term")
+        if t and t.get("c") is not None:
+            for leaf, _ in E.implied(t["c"], True) + E.implied(t["c"], False):
+                if (LE + "size") in E.mentions(leaf):
+                    cmp_locals |= {n["d"] for n in E.walk(leaf) if n.get("k") == "ref" and n.get("dk") == "local"}
+    snaps = {ev["d"] for b in ase.blocks.values() for ev in b["ev"] if ev.get("e") == "decl" and is_sz(ev.get("init"))} & cmp_locals
+    ck.need(cmp_locals, "C57: addSlotToEntry no longer compares the loaded size with a total")
+
+    def track_fresh(ev, env, fs):
+        if ev.get("e") == "decl" and ev.get("d") in cmp_locals:
+            if is_sz(ev.get("init")):
+                env["$fresh:" + ev["d"]] = 1
+            else:
+                env.pop("$fresh:" + ev["d"], None)
+        writes = (ev.get("e") == "asg" and is_sz(ev.get("lhs"))) or (ev.get("e") == "call" and (
+            E.strip(ev["x"]).get("f") == RB + "importEntry" or (E.strip(ev["x"]).get("f", "").endswith("operator=") and is_sz(E.strip(ev["x"]).get("o")))))
+        if writes:
+            for k in [k for k in env if k.startswith("$fresh:")]:
+                del env[k]
+    a3 = ck.flow(ase, on_event=track_fresh)
+    for st in ck.sites(a3, ev_call({RB + "mapSlot", RB + "finalizeOrFree"}), "mapSlot|finalizeOrFree", 2):
+        stale = sorted(n for n in snaps if st.env.get("$fresh:" + n) != 1)
+        if not stale:
+            ck.ok("A3.total-is-current", st.where(), "the total compared with le.size was read after the last possible change of swap_file_sz")
+        else:
+            ck.violation("A3.total-is-current", "A3|addSlotToEntry|stale-total|%s" % E.strip(st.ev["x"]).get("f", "").split("::")[-1], st.where(),
+                         "addSlotToEntry reaches %s with `%s` read from swap_file_sz *before* importEntry()/the entrySize assignment could change it: for the inode "
+                         "slot the overflow and completeness checks compare against a stale (possibly 0 = unknown) total" % (st.desc()[:40], ", ".join(stale)), a3.witness(st))
     need_locals(ck, ase, "le", "totalSize", "slotId", "header")
     bad = ev_call(RB + "freeBadEntry")
     fl = ck.flow(ase, markers={"bad": bad}, track_markers=["bad"])
